@@ -24,7 +24,7 @@ use crate::props::Prop;
 pub const PROP: Prop = Prop {
     id: "C09",
     level: "exploration",
-    rule: "(round 8: quoted symbol and keyword names whose byte and character lengths differ) (rounds 6-7: every generated invocation also goes through a macro_rules! wrapper that passes the unquoted expressions as expr fragments; hygiene: call-site variables named like each lower-case identifier in the source of the macro crate under test, unquoted as element, nested element, vector element and dotted tail) macro invocations generated from the documented syntax: model trees of depth <= 5 over integers within i32 (and i64/u64-suffixed), floats (short decimal forms with 1-5 significant digits and decimal exponents -12..17, spelled as Rust prints them with {:?} - exponent notation below 1e-4 and from 1e16 - and with explicit exponents 2.5e-3 / 2.5E-3), strings, Rust character literals, #t #f #nil, (), identifier symbols, #\"...\" symbols, punctuation-only symbols (+ - * / < = > ! $ % & ^ ~ ? @ <= >= -> ... ++ .++ :!) at every position, keywords as #:name, :name and #:\"...\", proper lists, dotted lists whose tail is an atom, a list or a dotted list (flattening), vectors, and unquotes ,x / ,(expr) of several Rust types in element and dotted-tail position, including expressions that draw from a counter shared by the invocation (the k-th in source order must contribute k); every third invocation with unquotes is written through a local macro_rules! macro whose parameters are expr fragments; every invocation is compiled (rustc) and compared at run time with lexpr::from_str of the equivalent text and with a model value built from plain constructors; non-trivial = the invocation contains a list, vector, punctuation symbol or unquote; distinct by the invocation's token text",
+    rule: "(round 9: unquoted expressions that bring their own delimiters - tuple, block, nested tuple) (round 8: quoted symbol and keyword names whose byte and character lengths differ) (rounds 6-7: every generated invocation also goes through a macro_rules! wrapper that passes the unquoted expressions as expr fragments; hygiene: call-site variables named like each lower-case identifier in the source of the macro crate under test, unquoted as element, nested element, vector element and dotted tail) macro invocations generated from the documented syntax: model trees of depth <= 5 over integers within i32 (and i64/u64-suffixed), floats (short decimal forms with 1-5 significant digits and decimal exponents -12..17, spelled as Rust prints them with {:?} - exponent notation below 1e-4 and from 1e16 - and with explicit exponents 2.5e-3 / 2.5E-3), strings, Rust character literals, #t #f #nil, (), identifier symbols, #\"...\" symbols, punctuation-only symbols (+ - * / < = > ! $ % & ^ ~ ? @ <= >= -> ... ++ .++ :!) at every position, keywords as #:name, :name and #:\"...\", proper lists, dotted lists whose tail is an atom, a list or a dotted list (flattening), vectors, and unquotes ,x / ,(expr) of several Rust types in element and dotted-tail position, including expressions that draw from a counter shared by the invocation (the k-th in source order must contribute k); every third invocation with unquotes is written through a local macro_rules! macro whose parameters are expr fragments; every invocation is compiled (rustc) and compared at run time with lexpr::from_str of the equivalent text and with a model value built from plain constructors; non-trivial = the invocation contains a list, vector, punctuation symbol or unquote; distinct by the invocation's token text",
     assumptions: &[
         "excluded by construction and counted: a '-' symbol directly followed by a literal and a ':' symbol directly followed by an identifier or literal (Rust tokenisation cannot tell them from a negative number / a keyword), names needing escapes inside #\"...\"",
         "floats are restricted to short decimal forms so that the default (fast-float) parser reads the text exactly",
